@@ -1,0 +1,6 @@
+//go:build !verif
+
+package avfs
+
+// VerifBeforeLock is a no-op unless built with the verif tag.
+func VerifBeforeLock(_ any, _ bool) {}
